@@ -299,6 +299,13 @@ def rule_par(ctx):
                 continue
             if d["name"] in ("par_for_each", "par_azip", "par_apply", "par_mapv_inplace", "par_map_inplace", "par_map_collect", "par_map_assign_into"):
                 verdict_closure(res, fn, n, inst)
+            elif any(w in d["name"] for w in ("fold", "reduce", "sum", "product")):
+                # ndarray's Zip::par_fold & co: the partial results are combined in schedule order
+                t = c.ty(n.get("t")) or ""
+                if taint.INT_RE.match(t):
+                    res.ok()
+                else:
+                    res.violate(inst, "parallel reduction `%s` (%s): the partial results are combined in an order that depends on how the work is split and stolen" % (d["name"], t), fn_loc(fn, n.get("ln")))
             else:
                 # par_iter & co: the chain's terminal is classified when reached (above); record the site
                 res.ok()
